@@ -733,6 +733,175 @@ theorem gl_parse_bwd {A : Arith V} (hm : LitMono A) : ∀ fuel : Nat,
         have := ihL _ _ z base a va r2 e r0 v' (by omega) (StackEval.cons hp.1 hp.2.1 h3 h2) hva h5 hev
         simpa using this
 
+
+/-! ### machine → spec -/
+
+/-- SOUNDNESS of the shift/reduce loop: every successful run is a derivation of the documented grammar, and the value
+    is the bottom-up value of the documented tree (no fuel condition: any successful run) -/
+theorem gl_parse_fwd (A : Arith V) : ∀ fuel : Nat,
+    (∀ (st : Stack V) (s : Bytes) (v : V) (st' : Stack V) (r : Bytes),
+      parseValue A fuel st s = .ok (v, st', r) → st' = st ∧ ∃ e, Doc .prim s e r ∧ evalA A e = .ok v) ∧
+    (∀ (st : Stack V) (s : Bytes) (v : V) (st' : Stack V) (r : Bytes),
+      parseExpr A fuel st s = .ok (v, st', r) → st' = st ∧ ∃ a r1 e r0, Doc .prim s a r1 ∧
+        Doc (.rest 0 a) r1 e r0 ∧ evalA A e = .ok v ∧ r = eatSpaces r0) ∧
+    (∀ (es : List (Oper × Expr)) (ms : Stack V) (z : V) (base : Stack V) (lhs : Expr) (v : V) (s : Bytes)
+      (v' : V) (st' : Stack V) (r : Bytes), StackEval A es ms → evalA A lhs = .ok v →
+      exprLoop A fuel v (ms ++ (Oper.null, z) :: base) s = .ok (v', st', r) →
+      st' = base ∧ ∃ e r0, Unwind es lhs s e r0 ∧ evalA A e = .ok v' ∧ r = eatSpaces r0) := by
+  intro fuel
+  induction fuel with
+  | zero =>
+    refine ⟨?_, ?_, ?_⟩
+    · intro st s v st' r h; simp [parseValue] at h
+    · intro st s v st' r h; simp [parseExpr] at h
+    · intro es ms z base lhs v s v' st' r _ _ h; simp [exprLoop] at h
+  | succ f ih =>
+    obtain ⟨ihV, ihE, ihL⟩ := ih
+    refine ⟨?_, ?_, ?_⟩
+    · -- parseValue
+      intro st s v st' r h
+      cases hs : eatSpaces s with
+      | nil => rw [gl_pv_nil A f st hs] at h; cases h
+      | cons c rest =>
+        by_cases hc : isDigit c = true
+        · rw [gl_pv_digit A f st hs hc] at h
+          cases hl : litParse A c rest with
+          | error x => rw [hl] at h; cases h
+          | ok p =>
+            obtain ⟨n, r'⟩ := p
+            rw [hl] at h
+            simp only [Except.ok.injEq, Prod.mk.injEq] at h
+            obtain ⟨e1, e2, e3⟩ := h
+            subst e1 e2 e3
+            obtain ⟨h1, h2⟩ := gl_lit_fwd hc hl
+            refine ⟨rfl, .lit n, Doc.num (by rw [hs]; exact h1), ?_⟩
+            simp only [evalA, h2, if_true]
+        · have hc' : isDigit c = false := by simpa using hc
+          by_cases h40 : c = 40
+          · subst h40
+            rw [gl_pv_paren A f st hs] at h
+            cases he : parseExpr A f st rest with
+            | error x => rw [he] at h; cases h
+            | ok p =>
+              obtain ⟨v1, st1, r1⟩ := p
+              rw [he] at h
+              simp only at h
+              obtain ⟨hst1, a, r1', e, r0, hp, hr, hev, hr1⟩ := ihE st rest v1 st1 r1 he
+              cases hs2 : eatSpaces r1 with
+              | nil => rw [hs2] at h; cases h
+              | cons c2 rest2 =>
+                rw [hs2] at h
+                by_cases h41 : c2 = 41
+                · subst h41
+                  simp only [Except.ok.injEq, Prod.mk.injEq] at h
+                  obtain ⟨e1, e2, e3⟩ := h
+                  subst e1 e2 e3
+                  rw [hr1, gl_eatSpaces_idem] at hs2
+                  exact ⟨hst1, e, Doc.paren hs hp hr hs2, hev⟩
+                · exfalso
+                  revert h
+                  split
+                  · rename_i heq
+                    simp only [List.cons.injEq] at heq
+                    exact absurd heq.1 h41
+                  · intro h; cases h
+          · by_cases h126 : c = 126
+            · subst h126
+              rw [gl_pv_not A f st hs] at h
+              cases he : parseValue A f st rest with
+              | error x => rw [he] at h; cases h
+              | ok p =>
+                obtain ⟨v1, st1, r1⟩ := p
+                rw [he] at h
+                simp only [Except.ok.injEq, Prod.mk.injEq] at h
+                obtain ⟨e1, e2, e3⟩ := h
+                subst e1 e2 e3
+                obtain ⟨hst1, e, hp, hev⟩ := ihV st rest v1 st1 r1 he
+                refine ⟨hst1, .not e, Doc.not hs hp, ?_⟩
+                simp only [evalA, hev]
+            · by_cases h43 : c = 43
+              · subst h43
+                rw [gl_pv_pos A f st hs] at h
+                obtain ⟨hst1, e, hp, hev⟩ := ihV st rest v st' r h
+                exact ⟨hst1, e, Doc.pos hs hp, hev⟩
+              · by_cases h45 : c = 45
+                · subst h45
+                  rw [gl_pv_neg A f st hs] at h
+                  cases he : parseValue A f st rest with
+                  | error x => rw [he] at h; cases h
+                  | ok p =>
+                    obtain ⟨v1, st1, r1⟩ := p
+                    rw [he] at h
+                    simp only at h
+                    cases hn : A.neg v1 with
+                    | error x => rw [hn] at h; cases h
+                    | ok v2 =>
+                      rw [hn] at h
+                      simp only [Except.ok.injEq, Prod.mk.injEq] at h
+                      obtain ⟨e1, e2, e3⟩ := h
+                      subst e1 e2 e3
+                      obtain ⟨hst1, e, hp, hev⟩ := ihV st rest v1 st1 r1 he
+                      refine ⟨hst1, .neg e, Doc.neg hs hp, ?_⟩
+                      simp only [evalA, hev, hn]
+                · rw [gl_pv_other A f st hs hc' h40 h126 h43 h45] at h
+                  cases h
+    · -- parseExpr
+      intro st s v st' r h
+      rw [parseExpr] at h
+      cases hv : parseValue A f ((Oper.null, A.lit 0) :: st) s with
+      | error x => rw [hv] at h; cases h
+      | ok p =>
+        obtain ⟨v1, st1, r1⟩ := p
+        rw [hv] at h
+        simp only at h
+        obtain ⟨hst1, a, hp, hva⟩ := ihV _ s v1 st1 r1 hv
+        subst hst1
+        obtain ⟨hb, e, r0, hU, hev, hr⟩ :=
+          ihL [] [] (A.lit 0) st a v1 r1 v st' r StackEval.nil hva (by simpa using h)
+        cases hU with
+        | nil hd => exact ⟨hb, a, r1, e, r0, hp, hd, hev, hr⟩
+    · -- exprLoop
+      intro es ms z base lhs v s v' st' r hst hlhs h
+      rw [gl_loop_unfold] at h
+      cases hlex : lexOp (eatSpaces s) with
+      | bad => rw [hlex] at h; cases h
+      | none =>
+        rw [hlex] at h
+        simp only at h
+        cases hred : reduce A Oper.null v (ms ++ (Oper.null, z) :: base) with
+        | error x => rw [hred] at h; cases h
+        | ok red =>
+          obtain ⟨e, w, h1, h2, h3⟩ := gl_reduce_none_fwd z base hlex hst lhs v red hlhs hred
+          subst h1
+          rw [hred] at h
+          simp only [Except.ok.injEq, Prod.mk.injEq] at h
+          obtain ⟨e1, e2, e3⟩ := h
+          subst e1 e2 e3
+          exact ⟨rfl, e, s, h3, h2, rfl⟩
+      | op o p l r1 =>
+        rw [hlex] at h
+        simp only at h
+        have hp := lexOp_op hlex
+        cases hred : reduce A ⟨some o, p, l⟩ v (ms ++ (Oper.null, z) :: base) with
+        | error x => rw [hred] at h; cases h
+        | ok red =>
+          obtain ⟨es', ms', lhs', vl, h1, h2, h3, back⟩ := gl_reduce_op_fwd z base hlex hst lhs v red hlhs hred
+          subst h1
+          rw [hred] at h
+          simp only at h
+          cases hv : parseValue A f ((⟨some o, p, l⟩, vl) :: (ms' ++ (Oper.null, z) :: base)) r1 with
+          | error x => rw [hv] at h; cases h
+          | ok q =>
+            obtain ⟨v2, st2, r2⟩ := q
+            rw [hv] at h
+            simp only at h
+            obtain ⟨hst2, a, hpa, hva⟩ := ihV _ r1 v2 st2 r2 hv
+            subst hst2
+            obtain ⟨hb, e, r0, hU, hev, hr⟩ :=
+              ihL ((⟨some o, p, l⟩, lhs') :: es') ((⟨some o, p, l⟩, vl) :: ms') z base a v2 r2 v' st' r
+                (StackEval.cons hp.1 hp.2.1 h3 h2) hva (by simpa using h)
+            exact ⟨hb, e, r0, back a r2 e r0 hpa hU, hev, hr⟩
+
 end
 
 end Pc.Calc
